@@ -97,7 +97,14 @@ def run_group(G, tier, seed, only_cases=None):
         tv = vk.tlc_validate(G["trace_spec"], G["trace_cfg"], trace_p, work,
                              timeout=G.get("trace_timeout", {}).get(tier, 1200), xmx=G.get("trace_xmx", "6g"))
         viols = tv["viols"]
-        bad_cases = sorted({v[1] for v in viols})[:300]
+        # keep details for at most 400 failing cases, rarest failure kinds first, so that a flood of one (known) class
+        # can never evict the descriptor of a rare failure
+        from collections import Counter
+        inv_count = Counter(v[2] for v in viols)
+        case_key = {}
+        for v in viols:
+            case_key[v[1]] = min(case_key.get(v[1], 1 << 60), inv_count[v[2]])
+        bad_cases = sorted(sorted(case_key, key=lambda c: (case_key[c], c))[:400])
         sample_cases = [0, len(cases) // 2, len(cases) - 1] if cases else []
         evs = vk.read_trace_cases(trace_p, set(bad_cases) | set(sample_cases))
         distinct = {}
